@@ -103,6 +103,11 @@ def cases(tier, seed):
     m = 2400 if tier == "quick" else 24000
     for i in range(m):
         yield {"id": n + i, "fam": "tmpl", "seed": base + i}
+    # the same scenarios and hierarchies through the public API RuntimeV2_x.process_events (outgoing events are fed back)
+    for i in range(m // 2):
+        yield {"id": n + m + i, "fam": "tmpl", "seed": base + i, "api": True}
+    for i in range(n // 6):
+        yield {"id": n + m + m // 2 + i, "fam": "hier", "seed": base + 7_000_000 + i, "hlen": 8, "deep": False, "sta": i % 3 == 2, "api": True}
 
 
 TEMPLATES = {
@@ -309,6 +314,14 @@ class Shadow:
             for b in a["bad"]:
                 self.problems.append((b, a["name"], {}))
             a["bad"] = []
+            if a["stops"] and not a.get("prem_checked") and a["name"] in static.get("extra_owners", {}) and uid not in self.fed_finished:
+                # an action shared by co-winning flows (owner set declared by the template, no scopes, no explicit Stop):
+                # it must not be stopped while one of the sharers still runs
+                a["prem_checked"] = True
+                owners = set(a["owners"]) | set(static["extra_owners"][a["name"]](st))
+                alive = [o for o in owners if o in st.flow_states and running(st.flow_states[o]) and o not in ends]
+                if alive:
+                    self.problems.append(("shared-action-stopped-while-a-sharer-runs", a["name"], {"running_sharers": len(alive)}))
             if a["stops"] or uid in self.fed_finished or a["start"] is None:
                 continue
             owners = set(a["owners"]) | set(static.get("extra_owners", {}).get(a["name"], lambda st_: set())(st))
@@ -316,7 +329,7 @@ class Shadow:
                 self.problems.append(("unfinished-action-of-ended-flow-not-stopped", a["name"], {}))
 
 
-def drive(src, pre, history, seed, static):
+def drive(src, pre, history, seed, static, api=False):
     from . import steps, v2h
 
     L = v2h.load()
@@ -328,7 +341,30 @@ def drive(src, pre, history, seed, static):
     _T["ends"].clear()
     sh = Shadow()
     fed = []
-    st = v2h.mk(src)
+    if api:
+        # the public event-processing API: RuntimeV2_x.process_events feeds the outgoing events back as input events
+        import asyncio
+
+        from nemoguardrails import RailsConfig
+        from nemoguardrails.colang.v2_x.runtime.runtime import RuntimeV2_x
+
+        try:
+            runtime = RuntimeV2_x(RailsConfig.from_content(src, 'colang_version: "2.x"\nmodels: []\n'))
+        except Exception as e:
+            raise v2h.LoaderReject("runtime %s: %s" % (type(e).__name__, str(e)[:300]))
+        box = {"st": None}
+
+        def feed(events):
+            steps.start(3_000_000)
+            try:
+                out, box["st"] = asyncio.run(runtime.process_events(events, box["st"]))
+            finally:
+                steps.stop()
+            return box["st"]
+
+        st = feed([])
+    else:
+        st = v2h.mk(src)
     sh.absorb(st)
     sh.check(st, static)
     for h in list(pre) + list(history):
@@ -360,7 +396,10 @@ def drive(src, pre, history, seed, static):
         else:
             ev = {"type": h}
         fed.append(ev["type"])
-        v2h.run(st, ev)
+        if api:
+            st = feed([ev])
+        else:
+            v2h.run(st, ev)
         sh.absorb(st)
         sh.check(st, static)
     return sh, fed, st
@@ -408,7 +447,7 @@ def run_case(case):
     if not _T["installed"]:
         return dict(base, verdict="inconclusive", reason="hook-missing")
     try:
-        sh, fed, st = drive(src, pre, hist, case["seed"], static)
+        sh, fed, st = drive(src, pre, hist, case["seed"], static, api=bool(case.get("api")))
     except v2h.LoaderReject as e:
         return dict(base, verdict="inconclusive", reason="loader-reject", detail=str(e)[:300])
     except steps.StepBudgetExceeded:
@@ -425,6 +464,7 @@ def run_case(case):
         "start_flow_events": sum(sh.starts_of.values()),
         "fam_" + tname: 1,
         "action_names_with_event_word_infix": int(infix is not None),
+        "driven_through_process_events": int(bool(case.get("api"))),
     }
     base["sample"]["fed"] = fed
     if sh.problems:
